@@ -42,3 +42,22 @@ package blocklist
 //@   loop 1 invariant 0 <= offset && offset <= len(key) && key == canon(entry_key) && !parentMatch(key, b.w) && !b.m[key]
 //@   loop 1 invariant forall off int :: {key[off:len(key)]} labelStart(key, off) && off <= offset ==> !b.m[key[off:len(key)]] && !b.wild[key[off:len(key)]]
 //@   loop 1 decreases len(key) - offset
+//@
+//@ # ---- C18: Set / Remove update exactly one entry of exactly one set: "*.x" lives in the wildcard set as x,
+//@ # anything else in the exact set; an entry shadowed by the whitelist anywhere in its hierarchy is refused
+//@ # the three sets are three distinct, allocated maps
+//@ pred blWF(b *BlockList) := b != nil && b.m != nil && b.wild != nil && b.w != nil && b.m != b.wild && b.m != b.w && b.wild != b.w
+//@ pred isWild(k string) := len(k) >= 2 && k[0:2] == "*."
+//@ func (*BlockList).setLocked
+//@   requires blWF(b)
+//@   ensures result <==> !parentMatch(canon(key), b.w)
+//@   ensures !result ==> (forall k string :: {b.m[k]} b.m[k] == old(b.m[k])) && (forall k string :: {b.wild[k]} b.wild[k] == old(b.wild[k]))
+//@   ensures result && isWild(canon(key)) ==> b.wild[canon(key)[2:len(canon(key))]] && (forall k string :: {b.m[k]} b.m[k] == old(b.m[k])) && (forall k string :: {b.wild[k]} k != canon(key)[2:len(canon(key))] ==> b.wild[k] == old(b.wild[k]))
+//@   ensures result && !isWild(canon(key)) ==> b.m[canon(key)] && (forall k string :: {b.wild[k]} b.wild[k] == old(b.wild[k])) && (forall k string :: {b.m[k]} k != canon(key) ==> b.m[k] == old(b.m[k]))
+//@
+//@ func (*BlockList).removeLocked
+//@   requires blWF(b)
+//@   ensures old(has(b.m, canon(key))) ==> result && !has(b.m, canon(key)) && (forall k string :: {has(b.m, k)} k != canon(key) ==> has(b.m, k) == old(has(b.m, k))) && (forall k string :: {has(b.wild, k)} has(b.wild, k) == old(has(b.wild, k)))
+//@   ensures !old(has(b.m, canon(key))) ==> (forall k string :: {has(b.m, k)} has(b.m, k) == old(has(b.m, k)))
+//@   ensures !old(has(b.m, canon(key))) && result ==> isWild(canon(key)) && old(has(b.wild, canon(key)[2:len(canon(key))])) && !has(b.wild, canon(key)[2:len(canon(key))])
+//@   ensures !old(has(b.m, canon(key))) ==> (forall k string :: {has(b.wild, k)} k != canon(key)[2:len(canon(key))] ==> has(b.wild, k) == old(has(b.wild, k)))
